@@ -6,6 +6,7 @@
 package main
 
 import (
+	"encoding/json"
 	"bytes"
 	"crypto/sha256"
 	"encoding/hex"
@@ -111,6 +112,8 @@ func intList(info *types.Info, e ast.Expr) ([]string, bool) {
 func main() {
 	repo := flag.String("repo", "/repo", "repository root")
 	out := flag.String("out", "", "output directory for generated Lean files")
+	pinned := flag.String("pinned", "", "JSON file with the constants of the pinned tree (fallback for names no longer found)")
+	writePinned := flag.Bool("write-pinned", false, "write the pinned-constants file from the current tree")
 	flag.Parse()
 	if *out == "" {
 		fmt.Fprintln(os.Stderr, "need -out")
@@ -250,6 +253,47 @@ func main() {
 	} else {
 		fmt.Fprintln(os.Stderr, "trusted_root.pem:", err)
 		os.Exit(1)
+	}
+
+	// constants the model was written against but that are no longer found under their name (renamed / inlined / removed):
+	// keep the pinned value so that a rename alone breaks nothing — the behavioural comparison decides whether the value
+	// still is what the code uses — and report them
+	if *pinned != "" {
+		if *writePinned {
+			m := map[string][2]string{}
+			for _, d := range defs {
+				if _, dup := m[d.name]; !dup {
+					m[d.name] = [2]string{d.typ, d.val}
+				}
+			}
+			js, _ := json.MarshalIndent(m, "", " ")
+			if err := os.WriteFile(*pinned, js, 0o644); err != nil {
+				fmt.Fprintln(os.Stderr, "write pinned:", err)
+				os.Exit(1)
+			}
+		} else if js, err := os.ReadFile(*pinned); err == nil {
+			m := map[string][2]string{}
+			if err := json.Unmarshal(js, &m); err != nil {
+				fmt.Fprintln(os.Stderr, "pinned constants:", err)
+				os.Exit(1)
+			}
+			have := map[string]bool{}
+			for _, d := range defs {
+				have[d.name] = true
+			}
+			var missing []string
+			for n := range m {
+				if !have[n] {
+					missing = append(missing, n)
+				}
+			}
+			sort.Strings(missing)
+			for _, n := range missing {
+				defs = append(defs, def{n, m[n][0], m[n][1]})
+				fmt.Fprintln(os.Stderr, "constant not found by name, pinned value kept:", n)
+			}
+			writeIfChanged(filepath.Join(*out, "missing_consts.txt"), []byte(strings.Join(missing, "\n")))
+		}
 	}
 
 	// de-duplicate (first wins) and emit
